@@ -93,6 +93,7 @@ func c10Gen(r *driver.Rand, thorough bool) *driver.Plan {
 	if r.Chance(1, 6) {
 		p.SetX("boxed", 1) // elements and accumulators are pointers, Combine works in place
 	}
+	lateReader := r.Chance(1, 8)
 	p.Cap = genCap(r)
 	if r.Chance(1, 2) {
 		k := 1 + r.Intn(4)
@@ -109,6 +110,16 @@ func c10Gen(r *driver.Rand, thorough bool) *driver.Plan {
 	}
 	if r.Chance(1, 8) {
 		p.SetX("uses", 2)
+	}
+	if lateReader {
+		// the fold completes at once (nothing takes virtual time), the context
+		// is cancelled a second later and the result is read only after that:
+		// the value delivered by a finished fold must still be there
+		p.FnStallMs = nil
+		p.Producers = []driver.ProducerPlan{{}}
+		p.Consumers = []driver.ConsumerPlan{{Abandon: -1, StartMs: 5000}}
+		p.CancelMs = 1000
+		p.SetX("uses", 0)
 	}
 	return p
 }
